@@ -701,6 +701,21 @@ fn systematic_families(rng: &mut Rng, budget: usize) -> Vec<Call> {
             let text = gen_text(rng, pool, &cfg, n);
             out.push(Call { lang, concrete: rng.chance(1, 2), op: Op::Rewrite { text, thr: "10".into() }, crash_at: 0, reenter: 0, during_unwind: false });
         }
+        // compound grid of the splitter languages: units x tens as single-word calls (many share a byte
+        // length and differ in their first split point: material for the dense-contention runs)
+        if matches!(pool.code, "de" | "nl" | "it") {
+            let concrete = rng.chance(1, 2);
+            for u in pool.units.iter().take(9) {
+                for t in pool.tens.iter().take(8) {
+                    let w = match pool.code {
+                        "de" => format!("{u}und{t}"),
+                        "nl" => format!("{u}en{t}"),
+                        _ => format!("{t}{u}"),
+                    };
+                    out.push(Call { lang, concrete, op: Op::T2d { text: w }, crash_at: 0, reenter: 0, during_unwind: false });
+                }
+            }
+        }
         let start = out.len();
         'w: for w in &words {
             for v in all_inflections(w) {
@@ -784,6 +799,31 @@ pub struct Case {
 
 pub struct C14 {
     pub corpus: Corpus,
+    /// index for dense-contention cases: per (language, byte length) the corpus indices of crash-free
+    /// single-word calls on a splitter language (built on first use)
+    pub dense: std::sync::OnceLock<Vec<Vec<usize>>>,
+}
+
+impl C14 {
+    fn dense_buckets(&self) -> &Vec<Vec<usize>> {
+        self.dense.get_or_init(|| {
+            let mut m: std::collections::BTreeMap<(usize, usize), Vec<usize>> = Default::default();
+            for (i, c) in self.corpus.calls.iter().enumerate() {
+                if c.crash_at != 0 || c.reenter != 0 || c.during_unwind || ![0usize, 4, 5].contains(&c.lang) {
+                    continue;
+                }
+                let w = match &c.op {
+                    Op::T2d { text } if !text.contains(' ') => text.as_str(),
+                    Op::Raw { words, .. } if words.len() == 1 => words[0].as_str(),
+                    _ => continue,
+                };
+                if w.len() >= 8 {
+                    m.entry((c.lang, w.len())).or_default().push(i);
+                }
+            }
+            m.into_values().filter(|v| v.len() >= 2).collect()
+        })
+    }
 }
 
 pub struct Exec {
@@ -824,6 +864,36 @@ impl Check for C14 {
     }
 
     fn generate(&self, rng: &mut Rng) -> Case {
+        // dense contention (one run in six): 2-4 caller threads hammer ONE splitter-language interpreter
+        // with single compound words of the same byte length (check-then-act on state shared through
+        // &self needs two callers inside the same few functions at the same time)
+        if rng.chance(1, 6) && !self.dense_buckets().is_empty() {
+            let buckets = self.dense_buckets();
+            let b = &buckets[rng.below(buckets.len())];
+            let nthreads = rng.range(2, 4);
+            let k = rng.range(2, b.len().min(6));
+            let mut calls = vec![];
+            let mut expected = vec![];
+            let start = rng.below(b.len());
+            for j in 0..k {
+                let ci = b[(start + j * (1 + rng.below(3))) % b.len()];
+                calls.push(self.corpus.calls[ci].clone());
+                expected.push(self.corpus.expected[ci].clone());
+            }
+            // all callers go through the same (facade or concrete) interpreter object
+            let concrete = calls[0].concrete;
+            let mut keep_c = vec![];
+            let mut keep_e = vec![];
+            for (c, e) in calls.into_iter().zip(expected) {
+                if c.concrete == concrete {
+                    keep_c.push(c);
+                    keep_e.push(e);
+                }
+            }
+            let per_thread = rng.range(3, 8);
+            let threads = (0..nthreads).map(|_| (0..per_thread).map(|_| rng.below(keep_c.len())).collect()).collect();
+            return Case { calls: keep_c, expected: keep_e, threads, policy: rng.below(6) as u8, sched_seed: rng.next_u64(), trace: None };
+        }
         let nthreads = *rng.pick(&[1usize, 1, 2, 2, 3, 4]);
         let per_thread = if nthreads == 1 { rng.range(4, 40) } else { rng.range(2, 10) };
         let mut calls = vec![];
@@ -936,6 +1006,15 @@ impl Check for C14 {
         }
         if case.threads.len() > 1 {
             stats.hit("probe.multi_thread_runs");
+            let l0 = case.calls.first().map(|c| c.lang);
+            let one_word = |c: &Call| match &c.op {
+                Op::T2d { text } => !text.contains(' '),
+                Op::Raw { words, .. } => words.len() == 1,
+                _ => false,
+            };
+            if case.calls.iter().all(|c| Some(c.lang) == l0 && one_word(c)) {
+                stats.hit("probe.dense_contention_runs");
+            }
         }
         RunResult {
             fingerprint: fp.finish(),
